@@ -12,6 +12,16 @@ Definition accept_call (targs : ty) (calldata : list Z) : option val :=
   if zlen calldata <? 4 + static_size targs then None      (* entry check: calldatasize >= 4 + static_size *)
   else dec_follow targs calldata 4.
 
+(* generalisation: arguments start at byte [base] of [data] (calldata: base = 4 after the selector; constructor:
+   base = code_end = length of the init code, data = init code ++ appended arguments, read with CODECOPY which
+   zero-extends).  Pointers are absolute positions in [data] with wrapping arithmetic, exactly as
+   (code_end + relative pointer) mod 2^256 in the compiled constructor: an offset that wraps reads INIT CODE bytes. *)
+Definition accept_at (base : Z) (targs : ty) (data : list Z) : option val :=
+  if zlen data <? base + static_size targs then None      (* entry / CODESIZE check *)
+  else dec_follow targs data base.
+Definition accept_ctor (targs : ty) (initcode args : list Z) : option val :=
+  accept_at (zlen initcode) targs (initcode ++ args).
+
 (* constructor arguments are appended to the init code and read with the same discipline
    (no selector, zero-extended); abi_decode / returndata are memory payloads: modelled by the
    follow-decoder from position 0, the [hi] bound checks are not part of this model. *)
